@@ -46,6 +46,8 @@ func c15Gen(r *rand.Rand) c15Case {
 		n = r.Intn(41) // well above the palette size
 	}
 	used := map[uint64]bool{}
+	c15Bases := []uint64{0, 999999999, 946684800e9, 951782400e9, 4102444800e9, 9223372035e9}
+	boundary, base := r.Intn(6) == 0, c15Bases[r.Intn(len(c15Bases))]
 	msgs := []string{"hello", "line\n", "crlf\r\n", "a\nb", "", " lead", "trail \n\n", "\xff\x00", "tab\t", "\r"}
 	for i := 0; i < n; i++ {
 		s := c15Stream{Container: fmt.Sprintf("c%d", i), HasContainer: true}
@@ -57,6 +59,10 @@ func c15Gen(r *rand.Rand) c15Case {
 		}
 		for j, m := 0, r.Intn(4); j < m; j++ {
 			ts := uint64(1700000000e9) + uint64(r.Intn(100))*250000000 + uint64(r.Intn(3))
+			if boundary {
+				// instants at and next to the calendar's corner points, the Unix epoch itself included
+				ts = base + uint64(r.Intn(3))*250000000 + uint64(r.Intn(2))
+			}
 			for used[ts] {
 				ts++
 			}
